@@ -272,17 +272,24 @@ pub fn set_preference(name: String, value: String) -> Result<()> {
             }
         }
         let lower_case_value = value.to_lowercase();
-        if lower_case_value == "true" || lower_case_value == "false" {
-            pref_manager.set_api_boolean_pref(&name, value.to_lowercase() == "true");
-        } else {
-            match name.as_str() {
-                "Pitch" | "Rate" | "Volume" | "CapitalLetters_Pitch" | "MathRate" | "PauseFactor" => {
-                    pref_manager.set_api_float_pref(&name, to_float(&name, &value)?)
+        let is_boolean_value = lower_case_value == "true" || lower_case_value == "false";
+        let is_float_pref = matches!(name.as_str(), "Pitch" | "Rate" | "Volume" | "CapitalLetters_Pitch" | "MathRate" | "PauseFactor");
+        // the value has to be of the same kind (boolean, number, string) as the preference
+        match pref_manager.is_boolean_pref(&name) {
+            None => bail!("{} is an unknown MathCAT preference!", name),
+            Some(true) => {
+                if !is_boolean_value {
+                    bail!("SetPreference: preference '{}'s value '{}' must be 'true' or 'false'", name, value);
                 }
-                _ => {
+                pref_manager.set_api_boolean_pref(&name, lower_case_value == "true");
+            },
+            Some(false) => {
+                if is_float_pref {
+                    pref_manager.set_api_float_pref(&name, to_float(&name, &value)?)
+                } else {
                     pref_manager.set_string_pref(&name, &value)?;
                 }
-            }
+            },
         };
         return Ok::<(), Error>(());
     })?;
